@@ -59,19 +59,14 @@ def dep5_tokens(g):
 
 
 def kclasses(ts, toml_globs, broad=False):
-    """Known-finding classes of a dep5 glob: the converter's own defects plus those the
-    REUSE.toml matcher contributes for the converted glob (C05 findings)."""
+    """Known-finding classes of a dep5 glob (syntactic signatures of the converter's recorded defects).
+    broad=True (random globs): a glob showing a defect's trigger is excused in both directions."""
     out = {}
     if any(t == ("q",) for t in ts):
         out["question-mark"] = {"under", "over"}
-    if any(t[0] == "lit" and t[1] == "*" and t[2] for t in ts):
-        out["escaped-asterisk-doubled"] = {"under", "over"}
-    for tg in toml_globs:
-        tt = C05.tokens(tg)
-        if tt is None:
-            continue
-        for k, dirs in C05.kclasses(tt, broad=broad).items():
-            out.setdefault("matcher(C05):" + k, set()).update(dirs)
+    # a dep5 '*' before '/' becomes '**/', which in REUSE.toml also stands for zero directories
+    if any(ts[i] == ("star",) and ts[i + 1] == ("lit", "/", False) for i in range(len(ts) - 1)):
+        out["star-slash-zero-directories"] = {"under", "over"} if broad else {"over"}
     return out
 
 
@@ -171,7 +166,6 @@ def run(ctx):
             ld = R.language(fp.files_pattern(), "fullmatch")
             item = toml.annotations[0]
             lt = R.language(item._paths_regex, mode)
-            lt_nolf = R.language(re.compile(item._paths_regex.pattern, item._paths_regex.flags | re.DOTALL), mode, lf_free=True)
         except R.Unsupported as e:
             ctx.harness_error(f"a compiled pattern for dep5 glob {g!r} is outside what vf/re2z3.py converts: {e}")
             ctx.ob(f"dep5 glob {g!r}", "RZ3", "inconclusive", detail=str(e))
@@ -197,10 +191,6 @@ def run(ctx):
                     continue
                 replayed += 1
                 key = None
-                if dom_name == "lf":
-                    r2, _ = q.diff(ld, lt_nolf, dom) if direction == "under" else q.diff(lt_nolf, ld, dom)
-                    if r2 == "unsat":
-                        key = "LF"
                 if key is None:
                     for k in sorted(kin):
                         if direction in kin[k]:
